@@ -5,6 +5,9 @@ import (
 	"sort"
 	"strconv"
 	"sync"
+	"time"
+
+	"github.com/PowerDNS/lightningstream/config"
 )
 
 func init() { Commands["proto"] = cmdProto }
@@ -15,6 +18,7 @@ type protoInput struct {
 	Insts      []int     `json:"insts"`
 	Padding    bool      `json:"padding"`
 	Drain      bool      `json:"drain"`
+	SweeperCut bool      `json:"sweeper_cut"` // sweeper enabled: abstract timestamps < 2 are older than the load cut-off
 	Behaviours [][]WStep `json:"behaviours"`
 }
 
@@ -72,17 +76,24 @@ func cmdProto(args []string) error {
 }
 
 func replayProto(R *Result, in protoInput, beh []WStep, conc Conc, kc KeyConc, bi int) error {
-	w, err := NewWorld(in.Native, in.Insts, conc, kc, R)
+	if in.SweeperCut {
+		now := uint64(time.Now().UnixNano())
+		day := uint64(24 * time.Hour)
+		conc = Conc{Name: "retention-10d", TS: []uint64{0, now - 20*day, now - 5*day, now - day, now - uint64(time.Hour), now - uint64(time.Minute), now - uint64(time.Second)},
+			Val: conc.Val, XF: conc.XF}
+	}
+	w, err := NewWorld(in.Native, nil, conc, kc, R)
 	if err != nil {
 		return err
 	}
 	w.Padding = in.Padding
+	if in.SweeperCut {
+		w.Sweeper = config.Sweeper{Enabled: true, RetentionDays: 10}
+	}
 	defer w.Close()
-	if in.Padding {
-		for _, i := range in.Insts {
-			if err := w.AddInst(i, true); err != nil {
-				return err
-			}
+	for _, i := range in.Insts {
+		if err := w.AddInst(i, false); err != nil {
+			return err
 		}
 	}
 	prevDB := map[int]map[string]Ver{}
@@ -208,6 +219,9 @@ func replayProto(R *Result, in protoInput, beh []WStep, conc Conc, kc KeyConc, b
 			img, _ := w.DecodeImage(a.From, src.Snaps[a.Seq-1])
 			db := prevDB[a.I]
 			for ks, v := range img {
+				if in.SweeperCut && v.Del && v.TS < 2 && db[ks].Absent() {
+					continue // a marker older than the load cut-off is not re-created on an instance without the key
+				}
 				if db[ks] != v && !beatsAbs(db[ks], v) {
 					bad("C04", "merge-not-dominating", si, "instance %d key %s: after merging %v the store holds %v", a.I, ks, v, db[ks])
 				}
